@@ -462,7 +462,7 @@ func RunCheck(o CheckOptions) int {
 	}
 
 	// ---- verdict ----
-	replayDir := filepath.Join(o.VerifDir, "evidence", "replay")
+	replayDir := filepath.Join(evidenceDir(o.VerifDir), "replay")
 	os.MkdirAll(replayDir, 0o755)
 	violations := 0
 	knownHit := map[string]bool{}
